@@ -94,7 +94,12 @@ def render_where(g):
 # ------------------------------------------------------------------ Coq terms of the model
 
 def c_str(t):
-    return coq_str(strip_ws(t))
+    """white-space free text as a term of the model's `str`; ASCII goes through the model's `s` (string literal ->
+    code points), which coqc parses far faster than a list of numerals"""
+    t = strip_ws(t)
+    if all(32 < ord(ch) < 127 for ch in t):
+        return '(s "%s")' % t.replace('"', '""')
+    return coq_str(t)
 
 
 def c_list(xs):
@@ -126,7 +131,7 @@ NAMING = {
     # variants named after associated types / prelude items the expansions mention, fields named after their locals
     "assoc1": {"ty": "Output", "f": ["value", "src", "rhs"], "v": ["Output", "Error", "Target"]},
     "assoc2": {"ty": "Result", "f": ["iter", "idx", "request"], "v": ["Item", "IntoIter", "Err"]},
-    "assoc3": {"ty": "Option", "f": ["val", "f", "other"], "v": ["Ok", "Some", "None"]},
+    "assoc3": {"ty": "Item", "f": ["val", "f", "other"], "v": ["Ok", "Some", "None"]},
     "assoc4": {"ty": "Target", "f": ["__0", "__1", "__derive_more_f"], "v": ["Err", "Output", "Self_"]},
 }
 ASSOC_NAMINGS = ["assoc1", "assoc2", "assoc3", "assoc4"]
@@ -622,10 +627,26 @@ ALL_DERIVES = list(VARIANTS)
 FLAVOURS = ["plain", "deprecated", "uninhabited"]
 
 
+KEYWORD_ONLY = re.compile(r"#\[\w+\(\s*\w+\s*\)\]$")
+
+
 def respell(text, mode):
     """trailing commas in the argument lists of a helper attribute: "to" after the last item of the attribute's own list,
     "ti" after the last item of every named group inside it (`owned(..)`, `ref(..)`, `bound(..)`, ...), "ta" both.
     String literals are left alone; bare parentheses (tuple / parenthesised types, where a comma changes the type) too."""
+    if KEYWORD_ONLY.match(text):
+        # `#[from(forward,)]`, `#[into(skip,)]`: a lone keyword followed by a comma is read as a one-element type list.
+        # Coordinator's decision: this is C17's subject (recorded there as keyword-trailing-comma-*), it stays out of
+        # C01's generator; a lone keyword is never respelled
+        return text
+    if re.match(r"#\[\w+\(\s*(bound\(|rename_all\b)", text) and mode in ("to", "ta"):
+        # `#[display(bound(T: Clone),)]` and `#[display(rename_all = "kebab-case",)]` are refused ("unexpected token")
+        # although `#[display("..", a,)]` and `bound(T: Clone,)` are accepted.  Coordinator's decision: C17's subject
+        # (recorded there), the outer comma after these two option forms stays out of C01's generator; the inner comma
+        # is still exercised
+        mode = "ti" if mode == "ta" else None
+        if mode is None:
+            return text
     out = []
     stack = []          # (named, nonempty-so-far, last significant char)
     i, n = 0, len(text)
@@ -670,6 +691,8 @@ def respell(text, mode):
 def build(derive, shape, gname, naming, attr, flavour, rng):
     """-> Case or None (combination not expressible, e.g. a unit struct with a type parameter)"""
     g = GSETS[gname]
+    if NAMING[naming]["ty"] in [p["n"] for p in g["params"]]:
+        return None             # the type would be shadowed by its own parameter
     ctx = Ctx(g, NAMING[naming], rng)
     ctx.unin = flavour == "uninhabited"
     base, _, spelling = attr.partition("~")
